@@ -21,7 +21,7 @@ const monDerive = "TestVerifDeriveKeyPair"
 
 func TestVerifDeriveKeyPair(t *testing.T) {
 	lib.Mandatory("derive-compared")
-	n := lib.Scale(60, 2500)
+	n := lib.Scale(60, 1500)
 	type job struct {
 		k kemDesc
 		i int
